@@ -61,6 +61,7 @@ template <bool A>
 static void run_case(const vh::Case &cs, Worker &w) {
     Ctx<A> c;
     for (auto &op : cs.ops) {
+        Watchdog::inst().tick();
         if (op.empty()) { reject(c); continue; }
         switch (op[0]) {
             case 0: {
@@ -153,6 +154,7 @@ static void run_case(const vh::Case &cs, Worker &w) {
 int main(int argc, char **argv) {
     if (argc < 2) return 2;
     coro_queue::install_queue_and_call([] {});
+    Watchdog::inst().start();
     Worker w;
     Worker::inst() = &w;
     cocls::verif::get_hooks().block = &Worker::hook_block;
@@ -187,6 +189,7 @@ int main(int argc, char **argv) {
         w.hook_present = seen;
     }
     for (auto &cs : vh::read_cases(argv[1])) {
+        Watchdog::inst().tick();
         std::printf("CASE %s\n", cs.name.c_str());
         std::fflush(stdout);
         if (cs.engine == "gen1") run_case<true>(cs, w);
@@ -194,6 +197,8 @@ int main(int argc, char **argv) {
         std::printf("END\n");
         std::fflush(stdout);
     }
+    Watchdog::inst().tick();
     w.stop();
+    Watchdog::inst().finish();
     return 0;
 }
